@@ -21,6 +21,7 @@ type ReplayTmpl struct {
 	Pkg   string `json:"pkg"`   // package dir relative to the repo
 	Test  string `json:"test"`  // template file under /verif/replay_tmpl/
 	Run   string `json:"run"`   // -run pattern
+	Props []string `json:"props,omitempty"` // when set: only for checks of these properties
 }
 
 func loadReplayIndex(verif string) []ReplayTmpl {
@@ -37,6 +38,9 @@ func tryReplay(w *World, prop string, o *Oblig, repo, verif string) *ReplayResul
 	for _, t := range loadReplayIndex(verif) {
 		re, err := regexp.Compile(t.Match)
 		if err != nil || !re.MatchString(o.Name) {
+			continue
+		}
+		if len(t.Props) > 0 && !hasProp(t.Props, prop) {
 			continue
 		}
 		return runReplay(t, o, repo, verif)
